@@ -174,6 +174,9 @@ func (r *bmRun) battery() {
 	for _, agg := range []string{"sum", "max", "mean"} {
 		r.search([]string{"aa", "bb aa"}, -1, nil, agg)
 		r.search([]string{"aa", "bb", "aa bb"}, 1, nil, agg)
+		// a query given twice counts twice
+		r.search([]string{"aa", "aa"}, -1, nil, agg)
+		r.search([]string{"bb", "aa", "bb"}, -1, nil, agg)
 	}
 }
 
@@ -263,6 +266,10 @@ func drvBM25(args []string) error {
 				}
 				qs := []string{}
 				for i := 0; i < nq; i++ {
+					if i > 0 && r.rng.Intn(5) == 0 {
+						qs = append(qs, qs[i-1]) // the same query text again
+						continue
+					}
 					if small {
 						qs = append(qs, []string{"aa", "bb", "cc bb", "aa aa", "dd", ""}[r.rng.Intn(6)])
 					} else {
